@@ -77,6 +77,11 @@ func (c *c02Case) source() string {
 			fmt.Fprintf(&sb, "  $i %s %s {\n    d[\"cc%d\"]++\n  }\n", s.Op, gen.PrintExpr(s.E, 4), n)
 		case "cond":
 			conds = append(conds, fmt.Sprintf("%s %s %s {\n  d[\"c%d\"]++\n}\n", gen.PrintExpr(s.E, 4), s.Op, gen.PrintExpr(s.E2, 4), n))
+		case "cond-bare":
+			// a constant arithmetic expression alone as the condition
+			conds = append(conds, fmt.Sprintf("%s {\n  d[\"cb%d\"]++\n}\n", gen.PrintExpr(s.E, 1), n))
+		case "cond-and-bare":
+			fmt.Fprintf(&sb, "  $i >= 0 && %s {\n    d[\"ca%d\"]++\n  }\n", gen.PrintExpr(s.E, 4), n)
 		}
 	}
 	sb.WriteString("}\n")
@@ -233,6 +238,16 @@ func runC02x(c c02Case) (*vstat.Failure, c02Res) {
 	if errU != nil {
 		if errO != nil {
 			// both reject: fine for this property when the reason is an integer division by a literal zero (C24)
+			bare := false
+			for _, s := range c.Stmts {
+				if s.Pos == "cond-bare" || s.Pos == "cond-and-bare" {
+					bare = true
+				}
+			}
+			if bare && strings.Contains(errU.Error(), "as a boolean expression") && strings.Contains(errO.Error(), "as a boolean expression") {
+				// not a condition for either compile
+				return nil, res
+			}
 			if !zeroDiv {
 				return vstat.Failf("harness-invalid-program", "both compiles reject a program without a constant zero divisor: %v\n%s", errU, src), res
 			}
@@ -327,7 +342,7 @@ func c02Const(rt *rapid.T, wantFloat bool, d int) *gen.Expr {
 }
 
 func TestC02(t *testing.T) {
-	st := vstat.New("C02", "constant expression trees over Int/Float literals (negative, zero, fractional, large) and + - * / % ** (depth <= 3, all Int/Float pairings, redundant parentheses), placed as right side of = and += on Int and Float gauges, index key, both sides of comparisons, strtol base, settime argument, and partially constant trees around captures; 1-3 lines; plus the exhaustive cross product operator x type pair x value grid; optimised vs unoptimised compile of the same source; non-trivial = a foldable node, both compiles succeed, and the statement executes (a metric changes); distinct by (source, lines)")
+	st := vstat.New("C02", "constant expression trees over Int/Float literals (negative, zero, fractional, large) and + - * / % ** (depth <= 3, all Int/Float pairings, redundant parentheses), placed as right side of = and += on Int and Float gauges, index key, both sides of comparisons, alone as a condition and after '&&' in one (accepted by both compiles or by neither), strtol base, settime argument, and partially constant trees around captures; 1-3 lines; plus the exhaustive cross product operator x type pair x value grid; optimised vs unoptimised compile of the same source; non-trivial = a foldable node, both compiles succeed, and the statement executes (a metric changes); distinct by (source, lines)")
 	st.Assumptions = []string{"the only model is the predicate 'some / or % has a right operand that is a constant evaluating to zero', used to decide whether an optimised-only rejection is allowed"}
 	runRaw := func(raw json.RawMessage) *vstat.Failure {
 		c, err := vstat.JSON[c02Case](raw)
@@ -348,7 +363,7 @@ func TestC02(t *testing.T) {
 			n := rapid.IntRange(1, 3).Draw(rt, "nstmts")
 			foldable := 0
 			for i := 0; i < n; i++ {
-				pos := rapid.SampledFrom([]string{"assign-int", "assign-float", "addassign-int", "addassign-float", "key", "key", "cond", "cond-cap", "strtol-base", "settime", "partial-int", "partial-float", "partial-int", "chain-float", "concat-string", "strcat", "strcmp"}).Draw(rt, "pos")
+				pos := rapid.SampledFrom([]string{"assign-int", "assign-float", "addassign-int", "addassign-float", "key", "key", "cond", "cond-cap", "strtol-base", "settime", "partial-int", "partial-float", "partial-int", "chain-float", "concat-string", "strcat", "strcmp", "cond-bare", "cond-and-bare"}).Draw(rt, "pos")
 				s := c02Stmt{Pos: pos}
 				capI := &gen.Expr{Op: "cap", Ty: gen.TInt, Name: "i"}
 				capF := &gen.Expr{Op: "cap", Ty: gen.TFloat, Name: "f"}
@@ -366,6 +381,11 @@ func TestC02(t *testing.T) {
 					fl := rapid.Bool().Draw(rt, "condfloat")
 					s.E, s.E2 = c02Const(rt, fl, 1), c02Const(rt, fl, 1)
 					s.Op = rapid.SampledFrom([]string{"<", "<=", ">", ">=", "==", "!="}).Draw(rt, "cop")
+				case "cond-bare", "cond-and-bare":
+					s.E = c02Const(rt, rapid.Bool().Draw(rt, "barefloat"), 1)
+					if s.E.Op == "lit" {
+						s.E = &gen.Expr{Op: "bin", Ty: s.E.Ty, Name: rapid.SampledFrom(c02Ops).Draw(rt, "bop"), Args: []*gen.Expr{s.E, c02Lit(rt, s.E.Ty == gen.TFloat)}}
+					}
 				case "cond-cap":
 					s.E = c02Const(rt, false, 1)
 					s.Op = rapid.SampledFrom([]string{"<", "<=", ">", ">=", "==", "!="}).Draw(rt, "cop")
